@@ -128,6 +128,8 @@ def build_history(prog_name, kind, d, doc_ins, shots, extra, seed, perturbation,
     if dask is not None:
         ex["use_dask"] = True
         acts.append({"op": "dask", "scheduler": dask[0], "workers": dask[1]})
+        if len(dask) > 2:
+            acts.append({"op": "dask_cpu_count", "value": dask[2]})
     if perturbation in ("other-execution-before", "same-execution-before"):
         acts += [{"op": "config", "as": "c0", "seed": 12345, "extra": ex}, {"op": "sim", "as": "s0", "config": "c0", "kind": kind, "d": d},
                  {"op": "execute", "sim": "s0", "program": "q", "shots": 3, "record": None}]
@@ -266,6 +268,34 @@ def history_workload(ctx, rng, spec, workdir):
                 if out["records"].get("r") != ref:
                     ctx.viol("samples-depend-on-dask:%s:%s" % (kind, label), "%s, seed %s: use_dask with scheduler %s/%d workers changes the samples" % (name, seed, sched[0], sched[1]),
                              {"history": hist, "program": name, "seed": seed})
+            # many shots: work distribution that depends on the shot count or on the number of CPUs dask reports only shows
+            # beyond a few shots per CPU (a seeded change that batched shots per worker needed shots >= 8 * CPU_COUNT)
+            many = 300 if kind == "passive" else 150
+            variants = [("no-dask", None), ("threads-4-cpu16", ("threads", 4, 16)), ("threads-4-cpu1", ("threads", 4, 1)), ("sync-cpu3", ("synchronous", 1, 3))]
+            if spec["tier"] == "thorough":
+                variants += [("threads-2-cpu64", ("threads", 2, 64)), ("threads-16-cpu2", ("threads", 16, 2))]
+            base = None
+            for vname, sched in variants:
+                hist = build_history(name, kind, d, ins, many, extra, seed, "none", dask=sched)
+                out, err = run_history(hist, workdir, "%s-many-%s" % (name, vname))
+                ctx.c["histories_run"] += 1
+                ctx.evals += 1
+                if out is None or out["errors"]:
+                    ctx.c["child_failures"] += 1
+                    ctx.obs.add("many-shot history %s/%s failed: %s" % (name, vname, err or out["errors"][0]["error"]))
+                    continue
+                got = out["records"].get("r")
+                if base is None:
+                    base = got
+                    continue
+                ctx.c["dask_runs"] += 1
+                ctx.c["sample_lists_compared"] += 1
+                ctx.c["many_shot_dask_comparisons"] = ctx.c.get("many_shot_dask_comparisons", 0) + 1
+                ctx.classes.add("dask-many|%s|%s|%s" % (kind, label, vname))
+                if got != base:
+                    nd = sum(1 for a, b in zip(got, base) if a != b)
+                    ctx.viol("samples-depend-on-dask:%s:%s" % (kind, label), "%s, seed %s, %d shots: %s gives different samples than the serial run (%d of %d differ)" % (
+                        name, seed, many, vname, nd, len(base)), {"history": hist, "program": name, "seed": seed})
 
 
 # ----------------------------------------------------------------------------- schedules of deterministic kernels
